@@ -83,17 +83,20 @@ package blockchain
 
 //@ func (*BlockStore).saveBlockPart
 //@   props C06
-//@   requires bs != nil && bs.db != nil
-//@   aborts when height != bs.height + 1
+//@   requires bs != nil
+//@   invariant-assumed bs.db != nil
 //@   nosafety
 //@   assigns nothing
+//@   ensures height == bs.height + 1
 //@   atcall Set assert [one-write-per-part] calls(Set) == 0
 
 //@ func (*BlockStore).SaveBlock
 //@   props C06
-//@   requires bs != nil && bs.db != nil && block != nil && blockParts != nil && wfPartSet(blockParts)
-//@   aborts when [only-the-next-height-can-be-stored] block.Header.Height != bs.height + 1
-//@   aborts when [only-complete-part-sets-can-be-stored] blockParts.count != blockParts.total
+//@   requires bs != nil && block != nil && blockParts != nil
+//@   invariant-assumed bs.db != nil && wfPartSet(blockParts)
+// (panics instead of storing otherwise: a normal return implies both)
+//@   ensures [only-the-next-height-is-stored] block.Header.Height == old(bs.height) + 1
+//@   ensures [only-complete-part-sets-are-stored] blockParts.count == blockParts.total
 //@   nosafety
 //@   assigns allbut(types.Block, types.Header, types.Commit, types.Data, types.PartSet, types.Vote, gemmill.Angine, state.State, pbft.ConsensusState, pbft.RoundState, pbft.HeightVoteSet, types.VoteSet)
 //@   atcall Set assert [no-block-data-after-the-height-marker] calls(Save) == 0
